@@ -22,7 +22,7 @@ for d in sorted(glob.glob('/verif/seeded/C*_*')):
         "written_by": ("the revert of a fix: commit (regression seed), not a sub-agent" if "Not written by a sub-agent" in notes else "independent sub-agent given only the property text and a scratch worktree of /repo"),
         "needs_to_manifest": needs,
         "confirmed_by_me": {"how": "tools/confirm_mutant.sh in a scratch worktree: go build; existing suite (up to 5 attempts, -cpu 2); demo with the change; demo without it", "result": confirm.get(n, "see notes.md")},
-        "checked_with": f"tools/try_mutant.sh seeded/{n}/patch.diff {owner} quick  (git -C /repo apply; ./check {owner} --tier quick; git -C /repo checkout -- .)",
+        "checked_with": f"tools/try_mutant.sh seeded/{n}/patch.diff {owner} quick  (git apply in a scratch worktree of /repo at HEAD; ./check {owner} --tier quick --repo <worktree>; git checkout -- .)",
         "detected_by_check": owner,
         "last_sweep_result": res,
         "detected": ' rc=1 ' in (' ' + res + ' ')
